@@ -139,7 +139,7 @@ def judge(chk, cid, td, text, d2, errs, warns, base_problem):
 C01_HEADER = "// generated by /verif (C01)\n#![allow(dead_code)]\n"
 
 
-def run_cases(chk, cases, name="c01", full=False):
+def run_cases(chk, cases, name="c01", full=False, edition15=False):
     # D2 accept/refuse
     # (definitions written through macro_rules!, or followed by a hand-written impl, cannot be fed to the in-process
     # expansion, which takes one item: rustc is their only judge)
@@ -179,6 +179,43 @@ def run_cases(chk, cases, name="c01", full=False):
                 ws[cid] = ds
     for cid, td, text in cases:
         judge(chk, cid, td, text, d2.get(cid), errs.get(cid), ws.get(cid), base_problem.get(cid))
+    if edition15:
+        clean = [c for c in cases if c[0] not in errs and c[0] not in ws and c[0] not in base_problem and (d2.get(c[0]) or {}).get("st", "ok") == "ok"]
+        e15 = edition_2015(chk, clean)
+        for cid, td, text in clean:
+            if cid in e15:
+                d = e15[cid][0]
+                chk.violation("edition-2015|%s|%s" % (d.get("code"), norm_msg(d["message"])),
+                              "a request that compiles in an edition-2021 crate does not compile in an edition-2015 crate "
+                              "(the macro's own paths are resolved by the user's edition?): %s\n%s\n%s"
+                              % (d["message"], d.get("rendered", ""), text), {"case.rs": text})
+
+
+def edition_2015(chk, cases):
+    """the same definitions inside an edition-2015 crate: paths the macro writes itself must not be resolved by the
+    edition of the USER's tokens (a leading `::` means the crate root there)"""
+    pick = [c for c in cases if "macro_rules!" not in c[2] and "dyn " not in c[2] and "async" not in c[2]][:400]
+    hdr = ("// generated by /verif (C01, edition 2015)\n#![allow(dead_code)]\nextern crate core;\n"
+           "extern crate educe;\nextern crate verif_rt;\n")
+    shards = H.shard(pick, max(1, min(NCPU, len(pick) // 40)))
+    progs = {}
+    for i, sh in enumerate(shards):
+        p = H.Program(header=hdr)
+        for cid, td, text in sh:
+            p.add_case(cid, H.module(cid, text + "".join(td.extra_items)))
+        progs["e%d" % i] = p
+    try:
+        dropped, warns, _ = H.compile_programs("c01_2015", progs, rounds=6, edition="2015", subcmd="check")
+    except Exception as e:
+        chk.inconc("edition-2015-build")
+        log("C01: edition 2015 build: %s" % e)
+        return set()
+    failing = set()
+    for b in progs:
+        failing.update(dropped[b])
+    for cid, td, text in pick:
+        chk.evaluations += 1
+    return {cid: dropped[b][cid] for b in progs for cid in dropped[b]}
 
 
 def main(tier, seed, scale=1.0):
@@ -197,7 +234,7 @@ def main(tier, seed, scale=1.0):
         cases += [("b%d_%s" % (k, cid), td, text) for cid, td, text in family_cases(seed * 1000003 + k, len(cases) // 16)]
         if k == 0:
             cases += hand_cases()
-        run_cases(chk, cases)
+        run_cases(chk, cases, edition15=(k == 0))
         k += batch
     chk.extra["d1_crates"] = (n + batch - 1) // batch
     # educe's `full` feature (syn/full): array / tuple / struct-literal expressions in Default attributes
